@@ -222,6 +222,18 @@ Proof.
   rewrite (convert_from_order_irrelevant o1 o2 _ inp H1 H2). reflexivity.
 Qed.
 
+(* the property's quantifier on the model: for all iteration orders of the sets
+   of the modelled stage ("hash seeds") and all histories of earlier conversions
+   in the same process, the output for [inp] is the same *)
+Lemma deterministic_model : forall order1 order2 hist1 hist2 ps1 ps2 inp,
+  set_preserving order1 -> set_preserving order2 ->
+  last (snd (run_history (conversion order1) ps1 (hist1 ++ [inp]))) (Err EFuel)
+  = last (snd (run_history (conversion order2) ps2 (hist2 ++ [inp]))) (Err EFuel).
+Proof.
+  intros o1 o2 h1 h2 ps1 ps2 inp H1 H2. rewrite !history_independent.
+  rewrite (conversion_order_irrelevant o1 o2 ps0 inp H1 H2). reflexivity.
+Qed.
+
 (* ---- what DOES depend on an order: the insertion order of the collections
    (upstream of the modelled stage it is the iteration order of the set of
    1000*cell+surf ids, a set of ints) ---- *)
